@@ -4,6 +4,7 @@ mod des;
 mod exec;
 mod fake;
 mod model;
+mod real;
 
 use des::{RunOutput, RunParams, World};
 use exec::{Backend, KeyRepr, PoolParams, Step, Violation};
@@ -266,6 +267,7 @@ fn main() {
     let mut replay: Option<String> = None;
     let mut mode = String::from("check");
     let mut runs_override: Option<u64> = None;
+    let mut real_mode = false;
     let mut i = 1;
     while i < args.len() {
         match args[i].as_str() {
@@ -274,6 +276,7 @@ fn main() {
             "--replay" => { replay = Some(args[i + 1].clone()); i += 1; }
             "--runs" => { runs_override = args[i + 1].parse().ok(); i += 1; }
             "--dump-logs" => mode = "dump-logs".into(),
+            "--real" => real_mode = true,
             "--selftest" => mode = "selftest".into(),
             other => harness_error(&format!("unknown argument {other}")),
         }
@@ -288,6 +291,9 @@ fn main() {
     }
     let seed = qpz_core::seed_from_env();
     let tier = Tier::from_env_or(tier_arg.as_deref());
+    if real_mode {
+        std::process::exit(real_main(&property, seed, tier, replay, runs_override, mode == "dump-logs"));
+    }
     println!("VERIF_SEED={seed} property={property} tier={} sim=pool mode=fake", tier.as_str());
 
     if let Some(path) = replay {
@@ -514,4 +520,174 @@ fn main() {
     ev.write(&qpz_core::evidence_path(&property)).unwrap_or_else(|e| harness_error(&format!("cannot write evidence: {e}")));
     println!("runs={} events={} ops={} states={} nontrivial_histories={} wall={:.1}s foreign={:?}", tot.runs, tot.events, tot.steps, tot.states.len(), tot.nontrivial.len(), wall, tot.foreign.0);
     std::process::exit(exit);
+}
+
+#[derive(Serialize, Deserialize)]
+struct RealReplayFile {
+    property: String,
+    sim: String,
+    mode: String,
+    seed: u64,
+    run_seed: u64,
+    shape: (usize, usize),
+    class: String,
+    detail: String,
+}
+
+fn real_main(property: &str, seed: u64, tier: Tier, replay: Option<String>, runs_override: Option<u64>, dump: bool) -> i32 {
+    println!("VERIF_SEED={seed} property={property} tier={} sim=pool mode=real", tier.as_str());
+    // several runs prove side by side: bound each rayon pool (must happen before rayon starts)
+    std::env::set_var("RAYON_NUM_THREADS", "4");
+    let (c18, c36) = (property == "C18", property == "C36");
+    if !c18 && !c36 {
+        harness_error("real mode serves C18 and C36");
+    }
+    let prefix = if c18 { "address:" } else { "conserve:" };
+    let t0 = qpz_core::real_now_ns();
+    let quick = tier == Tier::Quick;
+    let replay_file: Option<RealReplayFile> = replay.as_ref().map(|p| serde_json::from_str(&std::fs::read_to_string(p).unwrap_or_else(|e| harness_error(&format!("cannot read {p}: {e}")))).unwrap_or_else(|e| harness_error(&format!("bad replay file: {e}"))));
+    let shapes: Vec<(usize, usize)> = match &replay_file {
+        Some(rf) => vec![rf.shape],
+        None => {
+            if quick { vec![(2, 2), (1, 1)] } else { vec![(2, 2), (1, 1), (2, 1), (1, 2)] }
+        }
+    };
+    let arts: Vec<real::Artifacts> = {
+        let _gag = qpz_core::Gag::new();
+        std::thread::scope(|s| {
+            let hs: Vec<_> = shapes.iter().map(|(n, m)| s.spawn(move || real::build_artifacts(*n, *m))).collect();
+            hs.into_iter().map(|h| h.join().unwrap_or_else(|_| harness_error("artifact generation panicked"))).collect()
+        })
+    };
+    println!("artifacts for {:?} built at {:.1}s", shapes, (qpz_core::real_now_ns() - t0) as f64 / 1e9);
+    if let Some(rf) = &replay_file {
+        let out = real::run_real(&arts[0], rf.run_seed, c18, c36);
+        for l in &out.log {
+            println!("  {l}");
+        }
+        for f in &out.findings {
+            println!("replayed: class={} {}", f.class, f.detail);
+        }
+        let _ = std::fs::remove_dir_all(format!("/dev/shm/qpz-pool-{}", std::process::id()));
+        if out.findings.iter().any(|f| f.class.starts_with(prefix)) {
+            println!("VIOLATION property={property} replay={}", replay.unwrap());
+            return EXIT_VIOLATION;
+        }
+        println!("replay: no violation on this tree");
+        return EXIT_OK;
+    }
+    let (max_runs, budget) = if quick { (runs_override.unwrap_or(4), 0) } else { (runs_override.unwrap_or(u64::MAX / 2), qpz_core::budget_s(900)) };
+    let pseed = mix(seed, qpz_core::rng::hash_str(property));
+    let cfg = BatchCfg { first_run: 0, max_runs, budget_s: budget, workers: 4, stop_on_failure: true };
+    let results = run_batch(
+        &cfg,
+        |_| (),
+        |_, run| {
+            let rseed = mix(pseed, run);
+            let ai = (run as usize) % arts.len();
+            let out = real::run_real(&arts[ai], rseed, c18, c36);
+            (rseed, ai, out)
+        },
+        |(_, _, out)| out.findings.iter().any(|f| f.class.starts_with(prefix)),
+    );
+    let _ = std::fs::remove_dir_all(format!("/dev/shm/qpz-pool-{}", std::process::id()));
+    let mut probes = Counters::default();
+    let mut faults = Counters::default();
+    let mut histories: HashSet<u64> = HashSet::new();
+    let mut nontrivial: HashSet<u64> = HashSet::new();
+    let (mut publics, mut privates, mut leaves) = (0u64, 0u64, 0u64);
+    let mut samples = vec![];
+    let mut first: Option<(u64, usize, real::RealFinding)> = None;
+    let mut foreign = Counters::default();
+    for (run, (rseed, ai, out)) in &results {
+        probes.merge(&out.probes);
+        faults.merge(&out.faults);
+        publics += out.public_proofs;
+        privates += out.private_proofs;
+        leaves += out.leaf_proofs;
+        histories.insert(out.history);
+        if out.public_proofs > 0 {
+            nontrivial.insert(out.history);
+        }
+        if dump {
+            println!("RUN {run} seed={rseed} shape={:?}", shapes[*ai]);
+            for l in &out.log {
+                println!("  {l}");
+            }
+        }
+        if let Some(s) = &out.sample {
+            if samples.len() < 3 {
+                samples.push(json!({"run": run, "seed": rseed, "case": s}));
+            }
+        }
+        for f in &out.findings {
+            if f.class.starts_with(prefix) {
+                if first.is_none() {
+                    first = Some((*rseed, *ai, f.clone()));
+                }
+            } else {
+                foreign.inc(&f.class);
+            }
+        }
+    }
+    if dump {
+        return EXIT_OK;
+    }
+    let wall = (qpz_core::real_now_ns() - t0) as f64 / 1e9;
+    let mut exit = EXIT_OK;
+    let mut replay_path = String::new();
+    if let Some((rseed, ai, f)) = &first {
+        let rf = RealReplayFile { property: property.into(), sim: "pool".into(), mode: "real".into(), seed, run_seed: *rseed, shape: shapes[*ai], class: f.class.clone(), detail: f.detail.clone() };
+        replay_path = format!("{}/{property}-{rseed}.json", qpz_core::replay_dir());
+        std::fs::write(&replay_path, serde_json::to_string_pretty(&rf).unwrap()).unwrap();
+        println!("violation class={} seed={rseed} shape={:?}: {}", f.class, shapes[*ai], f.detail);
+        println!("VIOLATION property={property} replay={replay_path}");
+        exit = EXIT_VIOLATION;
+    }
+    if exit == EXIT_OK && publics == 0 {
+        harness_error("no public-batch proof was produced in any run: nothing was checked");
+    }
+    let n = results.len() as u64;
+    let mut extra = serde_json::Map::new();
+    extra.insert("simulated_runs".into(), json!(n));
+    extra.insert("runs_per_hour".into(), json!((n as f64 / wall * 3600.0).round()));
+    extra.insert("shapes_n_m".into(), json!(shapes));
+    extra.insert("real_leaf_proofs".into(), json!(leaves));
+    extra.insert("real_private_batch_proofs".into(), json!(privates));
+    extra.insert("real_public_batch_proofs".into(), json!(publics));
+    extra.insert("faults_fired".into(), faults.to_json());
+    extra.insert("reach_probes".into(), probes.to_json());
+    extra.insert("findings_of_other_properties".into(), foreign.to_json());
+    extra.insert("simulated_time".into(), json!("virtual milliseconds of network delay only; proving is real work"));
+    extra.insert("components".into(), json!({
+        "real": ["canonical leaf, private-batch and public-batch circuits rebuilt from the working tree", "artifacts generated by generate_all_circuit_binaries", "WormholeProver, PrivateBatchProver (commit with the RNG seam installed), PublicBatchAggregator (pool, snapshot, ProvingContext::prove_batch, verify)", "plonky2 proving and verification"],
+        "stub": [],
+        "simulated": ["clients, network (drop, duplicate, reorder, corruption of gossiped public proofs), two miners with different addresses, the chain (canonical verifier rebuilt from source)"]
+    }));
+    if !replay_path.is_empty() {
+        extra.insert("replay".into(), json!(replay_path));
+    }
+    let (rule, assumptions): (&str, Vec<String>) = if c18 {
+        ("one evaluation = one simulated run in which two aggregators with different addresses (random, differing in one felt, or all-zero) load the same generated artifacts, pool real private-batch proofs, prove public batches and gossip them; every returned proof is checked at the chain, at its producer and at the other miner, as is and corrupted in flight; distinct = distinct event log (public inputs only); non-trivial = at least one public-batch proof was produced", vec!["proofs 'valid under another address' are obtained the only way they can be: produced by the other miner in the run".into()])
+    } else {
+        ("one evaluation = one simulated run of the two-layer pipeline on honest inputs: deposits in a 4-ary tree under a real header, real leaf proofs split into padded private batches (slot order and dummy preimages from the RNG seam), pooled, snapshot and proved into public batches; each public proof the chain verifies is compared with a native oracle (value per account, nullifier multiset incl. H(H(u)) of dummy preimages, zero padding segments); distinct = distinct event log; non-trivial = at least one public-batch proof was produced", vec!["honest executions only: says nothing about adversarial witnesses (C06-C13 are not applicable to this technique)".into(), "N, M in {1,2}".into()])
+    };
+    let ev = Evidence {
+        property_id: property.into(),
+        tier: tier.as_str().into(),
+        seed,
+        level: "exploration".into(),
+        evaluations: n,
+        distinct_nontrivial: nontrivial.len() as u64,
+        rule: rule.into(),
+        samples,
+        exhaustive: None,
+        extra,
+        assumptions,
+        wall_s: wall,
+        violations: if exit == EXIT_OK { 0 } else { 1 },
+    };
+    ev.write(&qpz_core::evidence_path(property)).unwrap_or_else(|e| harness_error(&format!("cannot write evidence: {e}")));
+    println!("{property}: runs={n} leaf={leaves} private={privates} public={publics} wall={wall:.1}s");
+    exit
 }
